@@ -8,9 +8,23 @@ BLOCKING_POLICY = "BlockOnFull"
 DROP_POLICIES = ("DropOldest", "DropLatest")
 
 
+class _Names:
+    f_sc_policy = "policy"
+    f_sc_metrics = "metrics"
+
+
+_A = _Names()
+
+
+def _bind(ctx):
+    """field names of the send wrapper, found by type"""
+    _A.f_sc_policy = ctx.A.f_sc_policy
+    _A.f_sc_metrics = ctx.A.f_sc_metrics
+
+
 def _policy_of(path):
     for k, v in path.decisions:
-        if k[0] == "discr" and strip_wrap(k[1])[0] == "field" and strip_wrap(k[1])[2] == "policy":
+        if k[0] == "discr" and strip_wrap(k[1])[0] == "field" and strip_wrap(k[1])[2] == _A.f_sc_policy:
             return v
     return None
 
@@ -27,7 +41,7 @@ def _outcome(path, ev):
 def _metrics_some(path):
     vals = []
     for k, v in path.decisions:
-        if k[0] == "discr" and strip_wrap(k[1])[0] == "field" and strip_wrap(k[1])[2] == "metrics":
+        if k[0] == "discr" and strip_wrap(k[1])[0] == "field" and strip_wrap(k[1])[2] == _A.f_sc_metrics:
             vals.append(v)
     if not vals:
         return None
@@ -82,6 +96,7 @@ def feasible_paths(ctx, rep=None):
     Paths on which a try_send that follows a try_recv fails are infeasible when producers are
     serialised (rule CHS) - they are returned separately."""
     A = ctx.A
+    _bind(ctx)
     b = A.send_wrapper
     pe = ctx.paths(b, inline=True)
     ch0 = getattr(ctx, "_ch0", None)
@@ -362,7 +377,7 @@ def ch6_immutable_config(ctx, rep):
         for si, s in enumerate(b.blocks[i]["stmts"]):
             if s["k"] == "assign" and s["rv"]["k"] == "agg" and s["rv"].get("adt") == A.sender_adt["path"]:
                 vals = {f: bp.operand_term(o, i, si) for f, o in zip(s["rv"]["fields"], s["rv"]["ops"])}
-                for f in ("policy", "metrics"):
+                for f in (A.f_sc_policy, A.f_sc_metrics):
                     if f in vals:
                         rep.check(strip_clone(vals[f])[0] == "param", R, "%s-from-parameter" % f, ctx.where(b, i, si), "%s := %s" % (f, term_str(vals[f])), "%s := %s, not the constructor's parameter" % (f, term_str(vals[f])))
 
